@@ -57,6 +57,21 @@ pub fn replay_c02(ctx: &Ctx, c: &Value, rep: &mut Report) {
         }
         Ok(Ok(f)) => f,
     };
+    // binding of the Tokens model (Impl layer): the rule's token groups as hashes
+    if let Some(groups) = c.get("tokens").and_then(|t| t.as_array()) {
+        let mut model: Vec<Vec<u64>> = groups.iter().map(|g| {
+            let mut v: Vec<u64> = strs(g).iter().map(|t| adblock::utils::fast_hash(t)).collect();
+            v.sort();
+            v.dedup();
+            v
+        }).collect();
+        model.sort();
+        let mut real: Vec<Vec<u64>> = filter.get_tokens().into_iter().map(|mut v| { v.sort(); v.dedup(); v }).collect();
+        real.sort();
+        if model != real {
+            rep.drift(json!({"rule": rule, "what": "tokens", "model": groups, "real_groups": real.len(), "real_tokens": real.iter().map(|g| g.len()).sum::<usize>()}));
+        }
+    }
     let mut any = false;
     for (i, url) in ctx.urls.iter().enumerate() {
         let req = match Request::new(url, "", "script") {
